@@ -77,6 +77,10 @@ def run(ctx, replay):
         for s in [x for x in chosen if len(x) <= 2] + rng.sample(deep, 40 if quick else 400):
             sc = dict(rng.choice(scripts(rng, full=True)), hijack=False, rawmap=True)
             steps.append({"layers": s, "script": sc, "via": rng.choice(["server", "recorder"])})
+        for stp in steps:     # streaming handlers whose very first call is Flush (in-memory recorder: the flush is observed at the bottom)
+            if rng.random() < 0.15 and not any(stp["script"].get(x) for x in ("hijack", "rawmap", "early", "tryhijack")):
+                stp["script"] = dict(stp["script"], flushfirst=True, status=0, flush=True)
+                stp["via"] = "recorder"
         for stp in steps:     # the tracer's record sink fails for some of the exchanges that pass through a tracer
             if any(l["name"] == "trace" for l in stp["layers"]) and rng.random() < 0.4:
                 stp["sinkfail"] = True
